@@ -672,12 +672,48 @@ Proof.
   intros H. apply Forall_cons in H as [H _]. contradiction.
 Qed.
 
+(* ---- batches ---- *)
+Lemma has_delete_resource_iff o x j :
+  good_id x -> good_id j -> has (delete_resource o x).1 j <-> has o j /\ j <> x.
+Proof.
+  intros Hx Hj. unfold has; simpl. rewrite lookup_delete_Some. split.
+  - intros [Hne H]. split; [auto|]. intros ->. auto.
+  - intros [H Hne]. split; [|auto]. intros E. apply Hne. symmetry. apply id_str_inj; auto.
+Qed.
+
+Lemma delete_resources_char ids : forall o,
+  wf o -> Forall good_id ids ->
+  wf (delete_resources o ids) /\
+  (forall j, good_id j -> has (delete_resources o ids) j <-> has o j /\ j ∉ ids) /\
+  (forall k r, o_rels (delete_resources o ids) !! k = Some r <->
+               o_rels o !! k = Some r /\ r_from r ∉ ids /\ r_to r ∉ ids).
+Proof.
+  induction ids as [|x ids IH]; intros o Hwf Hg.
+  - cbn [delete_resources fold_left]. split; [auto|]. split.
+    + intros j _. rewrite elem_of_nil. tauto.
+    + intros k r. rewrite !elem_of_nil. tauto.
+  - apply Forall_cons in Hg as [Hx Hg]. unfold delete_resources. cbn [fold_left].
+    fold (delete_resources (delete_resource o x).1 ids).
+    destruct (IH (delete_resource o x).1 (delete_resource_wf o x Hwf Hx) Hg) as (I1 & I2 & I3).
+    split; [auto|]. split.
+    + intros j Hj. rewrite I2, has_delete_resource_iff, elem_of_cons by auto. tauto.
+    + intros k r. rewrite I3, delete_resource_rels, !elem_of_cons by auto. tauto.
+Qed.
+
+Lemma define_resources_wf ids : forall o,
+  wf o -> Forall good_id ids -> wf (fold_left (fun o i => (define_resource o i).1) ids o).
+Proof.
+  induction ids as [|x ids IH]; intros o Hwf Hg; [exact Hwf|].
+  apply Forall_cons in Hg as [Hx Hg]. cbn [fold_left]. apply IH; auto. apply define_resource_wf; auto.
+Qed.
+
 (* ---- histories ---- *)
 Definition good_op (o : op) : Prop :=
   match o with
   | DefRes i | DelRes i => good_id i
   | DefRel f ty t | DelRel f ty t => good_id f /\ good_ty ty /\ good_id t
   | DefMany f ty ts => good_id f /\ good_ty ty /\ Forall good_id ts
+  | DelMany xs | DefManyRes xs => Forall good_id xs
   | Begin | Commit | Abort => True
   end.
 
@@ -696,6 +732,8 @@ Proof.
       as [[Hl ->]|[_ (e & -> & _)]]; simpl; [|auto].
     apply add_rels_wf; auto.
   - apply delete_relationship_wf; auto.
+  - apply delete_resources_char; auto.
+  - unfold define_many_resources. destruct (forallb id_valid xs); [|exact Hwf]. apply define_resources_wf; auto.
 Qed.
 
 Definition wf_sys (s : sys) : Prop :=
